@@ -12,8 +12,8 @@ claimed = {
  "C17": ("proof", "The two repository-owned delivery mechanisms: (1) the scanner's split function is prefix-stable -- a 2-run lemma harness over the real closure (after repair of a genuine CR/LF defect); (2) readNBytes returns exactly the next c bytes of the reader's ghost byte stream for every delivery schedule (short reads, data-with-EOF), io.EOF only at a clean end (after repair of a genuine defect); (3) syntactic frame: io.Reader parameters flow only into these mechanisms / the XML decoder / the TS demultiplexer. Library decoders are assumed delivery-independent.", "lemma harness on newScanner's split closure, contract on readNBytes against a ghost-stream io.Reader contract, reader-flow check", "4 C17"),
  "C08": ("proof", "Panic-freedom and termination of counted loops for every function in the call trees of the six readers, five writers and the file helpers: every nil dereference, index/slice bound, nil-map write, type assertion, division, make size, precondition-at-call and loop invariant is an obligation generated from the working tree (zero-annotation sweep plus thin safety contracts and data-structure invariants such as the teletext page/packet-buffer invariant), discharged for all inputs; library behaviour (demultiplexer, tokenizers, decoders) enters through stated extern contracts, including that the demultiplexer may yield nothing. 'Time proportional to the input' and source-driven loop termination are assumptions/not decided. Genuine defects found this way were repaired (see known_findings.txt).", "contract-based deductive verification of the real code: package-wide safety sweep (own VC generator over the typed AST; Houdini-inferred loop frames; callee frames inferred from bodies; thin contracts in /repo/zz_contracts_verif.go; z3/cvc5 portfolio)", "4 (C08)"),
  "C18": ("proof", "Fault reporting as postconditions over a ghost fault model: every reader ensures `reader failed (a Read returned a non-EOF error) or a scanned line did not fit the buffer ==> err != nil` at every return; every writer ensures `a Write failed ==> err != nil`; Open/OpenFile/Write ensure `os.Open/os.Create failed ==> err != nil`; readNBytes' block-read contract (C17) carries the STL case. Library consumers (bufio.Scanner, xml Decoder/Encoder, astits Demuxer) are trusted extern contracts. The completeness clause ('the complete document was handed over') is not decided.", "contract-based deductive verification of the real code: ghost-state fault model in extern contracts, postconditions and loop invariants on the readers/writers, discharged on the package-wide sweep", "4 (C18)"),
- "C19": ("proof", "Writers: (a) purity -- each WriteToX has an assigns clause with ghost state only, so every heap array must agree with its entry value on all pre-existing locations at every return (proved for the obligations listed as discharged in the evidence; the ones the frame inference cannot reach are listed as unclaimed, not as proved); (b) every range over a map in the writers' call trees is order-free (collect-then-sort or store-under-key; structural obligation); (c) no direct time.Now in the call trees. Two genuine order-dependence defects (WebVTT STYLE blocks, SSA Format line) were repaired.", "contract-based deductive verification of the real code: frame (assigns) obligations with inferred callee frames on the package-wide sweep, plus structural map-order/clock obligations generated by the same symbolic executor", "4 (C19)"),
- "C20": ("proof", "Absence of shared mutable package state as obligations over every function: no assignment to, or store/delete/copy through an expression rooted at, a package-level variable (obligation kind global-write at every such statement; none exists on the unchanged tree); struct types shared through package-level pointers are never assigned a field (structural); the writers' purity obligations (shared with C19); the transformations' frames are proved under C09-C15. Race-freedom as such, readers' writes through references loaded from tables, and library thread-safety are assumptions / not decided.", "contract-based deductive verification of the real code: global-store obligations generated for every function by the symbolic executor, frame obligations, structural immutability check", "4 (C20)"),
+ "C19": ("proof", "Writers: (a) purity -- each WriteToX has an assigns clause with ghost state only, so every heap array must agree with its entry value on all pre-existing locations at every return (decided for every heap array that can hold cue-list data, i.e. reachable by type from Subtitles: all discharged for the five writers; the writers' own scratch heaps -- byte buffers, output structs -- cannot hold cue-list data and are outside the claim); (b) every range over a map in the writers' call trees is order-free (collect-then-sort or store-under-key; structural obligation); (c) no direct time.Now in the call trees. Two genuine order-dependence defects (WebVTT STYLE blocks, SSA Format line) were repaired.", "contract-based deductive verification of the real code: frame (assigns) obligations with inferred callee frames on the package-wide sweep, plus structural map-order/clock obligations generated by the same symbolic executor", "4 (C19)"),
+ "C20": ("proof", "Absence of shared mutable package state as obligations over every function: no assignment to, or store/delete/copy through an expression rooted at, a package-level variable (obligation kind global-write at every such statement; none exists on the unchanged tree), no store through a pointer or map whose type is also the type of a package-level variable can hit that shared object; struct types shared through package-level pointers are never assigned a field (structural); the writers' purity obligations (shared with C19); the transformations' frames are proved under C09-C15. Race-freedom as such, readers' writes through references loaded from tables, and library thread-safety are assumptions / not decided.", "contract-based deductive verification of the real code: global-store obligations generated for every function by the symbolic executor, frame obligations, structural immutability check", "4 (C20)"),
  "C14": ("proof", "Full functional contract of ForceDuration and Duration: kept/trimmed/removed cues characterised per index, filler presence/shape, resulting duration; one loop invariant; every path discharged.", "contracts on Subtitles.ForceDuration / Duration, SMT discharge", "4 C14"),
 }
 na = {
